@@ -225,7 +225,7 @@ Theorem esir_percolation : forall fuel, (esir_fuel g i0 <= fuel)%nat ->
 Proof.
   intros fuel Hf.
   destruct (esir_terminates tb g tmax delay dur tmin i0 r0 Hdelay Hdur Hadj Hdisj Htmin Hgn Hi0g Hadjg fuel Hf)
-    as [sF [cF [Hrun [Hq HI]]]].
+    as [sF [cF [Hrun [Hq [HI _]]]]].
   exists sF. split; auto. split; auto. eapply final_spec; eauto.
 Qed.
 
@@ -239,7 +239,7 @@ Theorem esir_sound_closed : forall fuel, (esir_fuel g i0 <= fuel)%nat ->
 Proof.
   intros fuel Hf.
   destruct (esir_terminates tb g tmax delay dur tmin i0 r0 Hdelay Hdur Hadj Hdisj Htmin Hgn Hi0g Hadjg fuel Hf)
-    as [sF [cF [Hrun [Hq HI]]]].
+    as [sF [cF [Hrun [Hq [HI _]]]]].
   exists sF. split; auto. split; [apply (i_sound _ _ _ _ _ _ _ _ _ HI)|].
   split; [eapply final_closed; eauto|]. split; [eapply final_init; eauto|].
   rewrite Hq. intros e [].
